@@ -32,6 +32,7 @@ RULE = (
     "empirical p-value query on a tie; distinct = different (op kind, mode, backend, precision, test statistic, number "
     "of bins, hypothesis pair digest / model digest) tuples"
 )
+STATE_MEASURE = "abstract state per toy experiment = (mode, backend, precision, test statistic, number of bins, route)"
 ASSUMPTIONS = [
     "exact reference: closed-form profile-likelihood statistics for mu*s+b counting models (sim/ref/counting.py, independent 1-D root finding) and exact Poisson tail sums",
     "scripted sampler replaces only .sample() of the objects returned by tensorlib.poisson_dist/normal_dist (class-level shadow, restored afterwards); log_prob is real",
